@@ -26,6 +26,7 @@ import (
 	"github.com/agglayer/aggkit/aggsender/flows"
 	"github.com/agglayer/aggkit/aggsender/statuschecker"
 	aggsendertypes "github.com/agglayer/aggkit/aggsender/types"
+	"github.com/agglayer/aggkit/bridgesync"
 	"github.com/agglayer/aggkit/log"
 	"github.com/ethereum/go-ethereum/common"
 	_ "github.com/mattn/go-sqlite3"
@@ -132,8 +133,8 @@ type Out struct {
 	After    []Row     `json:"after"`
 	HistA    []HistKey `json:"hist_after"`
 	Next     Next      `json:"next"`
-	SaveErr  bool      `json:"save_err"`          // fault cases: SaveLastSentCertificate returned an error
-	OpErrs   int       `json:"op_errs"`           // number of set-up operations the storage rejected
+	SaveErr  bool      `json:"save_err"`           // fault cases: SaveLastSentCertificate returned an error
+	OpErrs   int       `json:"op_errs"`            // number of set-up operations the storage rejected
 	MetaEnc  string    `json:"meta_enc,omitempty"` // meta cases: ToHash()
 	MetaDec  *MetaIn   `json:"meta_dec,omitempty"` // meta cases: NewCertificateMetadataFromHash(...)
 	MetaErr  bool      `json:"meta_err,omitempty"`
@@ -481,7 +482,54 @@ func run(in In) (o Out) {
 	} else {
 		o.Next = Next{OK: true, Height: h, LER: hexHash(ler), From: from, Retry: retry}
 	}
+	// 4b. the same question asked through the flows' own entry points, as the aggsender loop does: the real
+	// GetCertificateBuildParamsInternal (first block, retry count, last sent certificate), VerifyBuildParams and BuildCertificate
+	// (height, previous LER) of a real base flow over the same storage, with an L2 syncer that is far ahead and has no events.
+	// Both routes must agree; when they do not, the case reports that instead of either answer.
+	ph, pler, pfrom, pretry, perr := nextViaFlow(st2, fakeLER{h32(in.Cfg.StartLER)}, in.Cfg.StartBlock)
+	if !errors.Is(perr, errNothingToSend) {
+		same := (perr != nil) == (nerr != nil)
+		if same && perr != nil {
+			same = classifyNextErr(perr) == classifyNextErr(nerr)
+		}
+		if same && perr == nil {
+			same = ph == h && pler == ler && pfrom == from && pretry == retry
+		}
+		if !same {
+			o.Next = Next{Err: "entry_points_disagree", LER: hexHash(common.Hash{})}
+		}
+	}
 	return o
+}
+
+var errNothingToSend = errors.New("harness: the flow has no new block to send")
+
+type farAheadBridge struct{ aggsendertypes.BridgeQuerier }
+
+func (farAheadBridge) GetLastProcessedBlock(context.Context) (uint64, error) { return ^uint64(0), nil }
+func (farAheadBridge) GetBridgesAndClaims(context.Context, uint64, uint64) ([]bridgesync.Bridge, []bridgesync.Claim, error) {
+	return nil, nil, nil
+}
+func (farAheadBridge) OriginNetwork() uint32 { return 1 }
+
+func nextViaFlow(st aggsenderdb.AggSenderStorage, lq aggsendertypes.LERQuerier, startBlock uint64) (uint64, common.Hash, uint64, int, error) {
+	ctx := context.Background()
+	f := flows.NewBaseFlow(logger, farAheadBridge{}, st, nil, lq, flows.NewBaseFlowConfig(0, startBlock, false))
+	params, err := f.GetCertificateBuildParamsInternal(ctx, aggsendertypes.CertificateTypePP)
+	if err != nil {
+		if strings.Contains(err.Error(), "no new blocks") {
+			return 0, common.Hash{}, 0, 0, errNothingToSend
+		}
+		return 0, common.Hash{}, 0, 0, err
+	}
+	if err := f.VerifyBuildParams(ctx, params); err != nil {
+		return 0, common.Hash{}, params.FromBlock, params.RetryCount, err
+	}
+	cert, err := f.BuildCertificate(ctx, params, params.LastSentCertificate, true)
+	if err != nil {
+		return 0, common.Hash{}, params.FromBlock, params.RetryCount, err
+	}
+	return cert.Height, cert.PrevLocalExitRoot, params.FromBlock, params.RetryCount, nil
 }
 
 // ---------------------------------------------------------------------------------------------------------
@@ -944,7 +992,9 @@ func genFaults(rng *hlib.Rng, n int) []In {
 
 func genMeta(rng *hlib.Rng, n int) []In {
 	var ins []In
-	add := func(m MetaIn) { ins = append(ins, In{Kind: "meta", CP: "none", AggClass: "meta", Step: "meta", Ops: []Op{}, Agg: Agg{Known: []Hdr{}}, Meta: &m}) }
+	add := func(m MetaIn) {
+		ins = append(ins, In{Kind: "meta", CP: "none", AggClass: "meta", Step: "meta", Ops: []Op{}, Agg: Agg{Known: []Hdr{}}, Meta: &m})
+	}
 	bnd := []uint64{0, 1, 255, 256, 1<<32 - 1, 1 << 32, 1<<32 + 1, 1<<56 - 1, 1 << 56, 1<<63 - 1, 1 << 63, 1<<64 - 1}
 	for _, f := range bnd {
 		for _, d := range []uint64{0, 1, 1<<32 - 1, 1 << 32, 1<<32 + 5} {
